@@ -48,6 +48,7 @@ type registry struct {
 	blob []byte
 
 	mu       sync.Mutex
+	gen      int        // number of fetchers handed out
 	log      [][2]int64 // (offset, size) of every Fetch
 	off      bool       // registry unreachable
 	failFrom int64      // >= 0: requests whose range reaches an offset >= failFrom fail
@@ -63,12 +64,23 @@ func newRegistry(blob []byte) *registry {
 
 func (g *registry) Handle(ctx context.Context, desc ocispec.Descriptor) (remote.Fetcher, int64, error) {
 	g.mu.Lock()
-	down := g.off
-	g.mu.Unlock()
-	if down {
+	defer g.mu.Unlock()
+	if g.off {
 		return nil, 0, fmt.Errorf("registry unreachable")
 	}
-	return g, int64(len(g.blob)), nil
+	// every resolution (Resolve, Refresh) yields a fetcher with cache keys of its own, as a new URL would: after a
+	// Refresh the compressed-blob cache is cold
+	g.gen++
+	return &genFetcher{g, g.gen}, int64(len(g.blob)), nil
+}
+
+type genFetcher struct {
+	*registry
+	gen int
+}
+
+func (f *genFetcher) GenID(off int64, size int64) string {
+	return fmt.Sprintf("blob%d-%d-%d", f.gen, off, size)
 }
 
 func (g *registry) Fetch(ctx context.Context, off int64, size int64) (io.ReadCloser, error) {
@@ -115,7 +127,12 @@ func (g *registry) Check() error {
 	return nil
 }
 
-func (g *registry) GenID(off int64, size int64) string { return fmt.Sprintf("blob-%d-%d", off, size) }
+// GenID: the cache key of the current (latest) fetcher.
+func (g *registry) GenID(off int64, size int64) string {
+	g.mu.Lock()
+	defer g.mu.Unlock()
+	return fmt.Sprintf("blob%d-%d-%d", g.gen, off, size)
+}
 
 func (g *registry) logLen() int {
 	g.mu.Lock()
@@ -1126,6 +1143,17 @@ func (w *world) run(obs *Obs) {
 			}
 			out.Res = "ok"
 			out.Keys, out.HasKeys = w.fsKeys(), true
+		case "refresh":
+			// the real Layer.Refresh: the blob gets a new fetcher whose cache keys differ, so from here on the compressed
+			// bytes fetched so far are not served locally: what the chunk cache lacks has to come from the registry
+			if len(w.pfRunning) > 0 {
+				out.Res = "none"
+				break
+			}
+			noHosts := func(reference.Spec) ([]docker.RegistryHost, error) {
+				return nil, fmt.Errorf("no registry host configured")
+			}
+			out.Res = resOf(w.l.Refresh(context.Background(), noHosts, w.refspec, w.desc))
 		case "off":
 			w.reg.set(func() { w.reg.off = true })
 			out.Res = "ok"
